@@ -55,6 +55,9 @@ def scenario(big: bool = False) -> Any:
             else:
                 m.pop("rv")
                 m.pop("rvobj")
+            kn = m.pop("kwnames")
+            if kn and m["kind"] in ("async", "sync"):
+                m["kwnames"] = kn
             m["ack"] = "sync"
             if not m["clock_step"] or m["kind"] != "async":
                 m.pop("clock_step")
@@ -76,7 +79,8 @@ def scenario(big: bool = False) -> Any:
         "late_labels": st.dictionaries(st.sampled_from(["trace", "origin", "n"]), st.one_of(st.text(max_size=4), st.integers(-5, 5), st.booleans()), max_size=2),
         "timeout_late": st.booleans(),
         "dup": st.one_of(st.none(), st.none(), st.none(), st.none(), st.integers(0, 5)),
-        "clock_step": st.sampled_from([0, 0, 0, -5.0, 3600.0, -0.5]),   # the wall clock jumps while this task runs
+        "clock_step": st.sampled_from([0, 0, 0, -5.0, 3600.0, -0.5]),
+        "kwnames": st.sampled_from([None, None, None, ["target"], ["args", "kwargs"], ["target", "kwargs"]]),   # the wall clock jumps while this task runs
     })).map(lambda t: {**t[0], **t[1]})
     return st.fixed_dictionaries({
         "A": st.integers(1, 5 if big else 3),
